@@ -8,6 +8,7 @@ import (
 	"bytes"
 	"encoding/pem"
 	"errors"
+	"fmt"
 
 	"github.com/foxboron/go-uefi/efi/signature"
 	"github.com/foxboron/go-uefi/efi/util"
@@ -231,6 +232,40 @@ func runSigdb(sc M) {
 				db.AppendList(sl)
 				sl = nil
 				res = "ok"
+			case "removelist":
+				// the k-th list of the database (a copy with the same content: RemoveList compares by value), or a list it cannot hold
+				k := 0
+				fmt.Sscan(d, &k)
+				var target *signature.SignatureList
+				if k >= 1 && k <= len(*db) {
+					cp := *(*db)[k-1]
+					// (RemoveList compares with reflect.DeepEqual, which tells a nil slice from an empty one: the copy keeps nil-ness)
+					if cp.Signatures != nil {
+						cp.Signatures = append([]signature.SignatureData{}, cp.Signatures...)
+					}
+					if cp.SignatureHeader != nil {
+						cp.SignatureHeader = append([]uint8{}, cp.SignatureHeader...)
+					}
+					target = &cp
+				} else {
+					target = signature.NewSignatureList(guidOf(typeGUIDWire, "sha256"))
+					target.AppendBytes(guidOf(ownerGUIDWire, "o3"), sigdbData["h1"].bytes)
+				}
+				ev["target"] = fieldsOfList(target)
+				res = errClass(db.RemoveList(target))
+			case "listquery":
+				ev["t"] = lookupWire(typeGUIDWire, guidWire(sl.SignatureType))
+				ok1, _ := sl.Exists(&signature.SignatureData{Owner: guidOf(ownerGUIDWire, ow), Data: dv.bytes})
+				one := signature.NewSignatureList(sl.SignatureType)
+				one.Signatures = []signature.SignatureData{{Owner: guidOf(ownerGUIDWire, ow), Data: dv.bytes}}
+				ok2 := sl.ExistsInList(one)
+				res = "false"
+				if ok1 {
+					res = "true"
+				}
+				if ok1 != ok2 || !sl.CmpHeader(sl) {
+					res = "inconsistent"
+				}
 			case "load":
 				// a database that was not built by the library: the preset (abstract lists from the specification) is written by the
 				// independent encoder and decoded
